@@ -15,6 +15,10 @@ def main():
     a = ap.parse_args()
     sys.path.insert(0, ROOT)
     sys.dont_write_bytecode = True
+    import signal
+
+    # let a SIGTERM unwind through the finally blocks (worker pool, scratch files)
+    signal.signal(signal.SIGTERM, lambda *a: sys.exit(143))
     from . import runner
 
     if a.replay:
